@@ -120,7 +120,14 @@ def one_run(w, ps, m, arg, plan, cold=False):
          "phase": phase(w), "path": path})
     before = False
     for k, kind in plan:
-        if kind == "gone-before":
+        if kind in ("gone-before", "asked-then-gone"):
+            if kind == "asked-then-gone":
+                # the same question was answered once while the process lived (an executable whose
+                # name the kernel truncates, completed from the command line)
+                t = w.procs[PID]
+                t.comm, t.cmdline = b"long-target-nam", b"/bin/long-target-name-of-23\0--flag\0"
+                classify(ps, lambda: invoke(ps, p, m, arg), PID)
+                del acc[:]
             w.vanish(PID)          # the process exits and is reaped between two calls of the caller
             before = True
         elif kind == "vanish":
@@ -197,6 +204,8 @@ def signature(rec, clauses):
             return "C03-proc-listing-denied"
         if where == "system-file" and path.endswith("/meminfo") and rec["m"] in ("memory_percent", "as_dict"):
             return "C03-meminfo-denied"
+    if kinds == ["asked-then-gone"] and failed == ["GoneBefore"] and rec["out"] == "value" and rec["m"] in ("create_time", "exe"):
+        return "C03-cached-answer-after-gone:" + rec["m"]
     return "%s:%s:%s:%s:%s" % (rec["m"], "+".join(kinds), where, rec["out"], ",".join(failed))
 
 
@@ -299,6 +308,7 @@ def check(ctx):
             for kind in ("vanish", "zombie", "EACCES", "EPERM"):
                 jobs.append((m, arg, [(k, kind)]))
         jobs.append((m, arg, [(0, "gone-before")]))
+        jobs.append((m, arg, [(0, "asked-then-gone")]))
         if m in ("parent", "parents", "children", "process_iter"):
             for k in ks:
                 for victim in (PARENT, 80):
